@@ -28,6 +28,16 @@ CHECKS["C03"] = dict(
          "atoms at every state against the executable LTL_f specification on all traces.",
     design="§6 C03", technique="Lean 4 proof (unique solution of the translation's equation system = LTL_f) + equation-level correspondence with the real translation")
 
+CHECKS["C05"] = dict(
+    text="Theorems (Lean 4): del_unique — for path expressions in the documented normal form, any valuation solving the one-step "
+         "equations of DiamondFormula/BoxFormula (transcribed from translate_ChoicePath/SequencePath/CheckPath/KleeneStarPath/SkipPath) "
+         "is the LDL_f semantics (runs relation; diamond = some run, box = every run), by induction on the path with an inner induction "
+         "on the distance to the end of the trace for iteration, including the sufficiency of the iteration fuel; del_doc_eq — the code's "
+         "create_dynamic_formula/create_path build a formula with the specified semantics (atoms as test-then-step, &final as [T]false); "
+         "runs_within — runs never leave 0..h.  Tie and search as for C03 (equation-level correspondence on real runs; witness atoms vs "
+         "the executable LDL_f specification on all traces, normal-form generator).",
+    design="§6 C05", technique="Lean 4 proof (unique solution of the Diamond/Box equation system = LDL_f under normal form) + equation-level correspondence")
+
 NOT_YET = {}
 
 def main():
